@@ -93,16 +93,22 @@ def _alarm(signum, frame):
 
 
 class watchdog(object):
-    """per-case watchdog; termination is part of several properties"""
+    """per-case watchdog; termination is part of several properties.  The budget is CPU time of this process
+    (ITIMER_PROF), so a loaded machine cannot turn a terminating case into a timeout; a wall-clock alarm at 20x
+    the budget is the backstop for a case that blocks without consuming CPU."""
     def __init__(self, seconds=5):
         self.s = seconds
 
     def __enter__(self):
         self.old = signal.signal(signal.SIGALRM, _alarm)
-        signal.alarm(self.s)
+        self.oldp = signal.signal(signal.SIGPROF, _alarm)
+        signal.setitimer(signal.ITIMER_PROF, self.s)
+        signal.alarm(self.s * 20)
 
     def __exit__(self, *a):
+        signal.setitimer(signal.ITIMER_PROF, 0)
         signal.alarm(0)
+        signal.signal(signal.SIGPROF, self.oldp)
         signal.signal(signal.SIGALRM, self.old)
         return False
 
